@@ -110,6 +110,11 @@ fn boundary_rd(r: &mut Rng) -> i64 {
 }
 
 // ------------------------------------------------------------------------------------ C01
+thread_local! {
+    /// extremes seen of the envelope quantities: min d1, max d1, max |d2|, max |H|
+    static ENVELOPE: std::cell::RefCell<[f64; 4]> = std::cell::RefCell::new([f64::INFINITY, f64::NEG_INFINITY, 0., 0.]);
+}
+
 fn c01_one(ctx: &mut Ctx, c: &DayCase) {
     ctx.eval();
     let h = match raw(c) {
@@ -141,6 +146,35 @@ fn c01_one(ctx: &mut Ctx, c: &DayCase) {
     }
     if !reported_is_computed(ctx, c, &h, &[(2, Prayer::Dhuhr)]) {
         return;
+    }
+    // the hypotheses of Lean's `C01.residual_bound` (DESIGN 7 C01 "envelope"), evaluated on the
+    // implementation's own ephemeris of the three days: daily RA motion, its second difference, and
+    // the hour angle at the mean transit fraction that the single correction step removes
+    {
+        let t = vh::top_astro(c.l, date_of_rd(c.rd));
+        let step = |a: f64, b: f64| {
+            let d = b - a;
+            if d < -180. { d + 360. } else if d > 180. { d - 360. } else { d }
+        };
+        let (s1, s2) = (step(t[0][0], t[1][0]), step(t[1][0], t[2][0]));
+        let (d1, d2) = (s1 + s2, s2 - s1);
+        let m = dhuhr.rem_euclid(24.) / 24.;
+        let hh = m * (0.985647 - d1 / 2.) - m * m * d2 / 2.;
+        ENVELOPE.with(|e| {
+            let mut e = e.borrow_mut();
+            e[0] = e[0].min(d1);
+            e[1] = e[1].max(d1);
+            e[2] = e[2].max(d2.abs());
+            e[3] = e[3].max(hh.abs());
+        });
+        if !(1.7..=2.3).contains(&d1) || d2.abs() > 0.02 || hh.abs() > 0.5 {
+            ctx.fail(
+                c.to_json(),
+                format!("RA motion over the two days {:.5} deg, second difference {:.5} deg, hour angle at the mean transit {:.5} deg", d1, d2, hh),
+                "the envelope under which C01.residual_bound bounds the residual of the single correction step: 1.7 <= d1 <= 2.3, |d2| <= 0.02, |H| <= 0.5".into(),
+            );
+            return;
+        }
     }
     // the reported instant is a clock time of the requested civil date: an hour outside [0, 24) is
     // reported wrapped into the day, and that is the instant the property speaks about
@@ -197,7 +231,10 @@ pub fn c01(ctx: &mut Ctx, tier: &str, r: &mut Rng, js: &[Value], reqs: &[String]
         }
         c01_one(ctx, &c);
     }
-    ctx.finish(json!({"oracle_self_test_deg": [ra, dec, st]}));
+    let env = ENVELOPE.with(|e| *e.borrow());
+    ctx.finish(json!({"oracle_self_test_deg": [ra, dec, st],
+        "residual_bound_envelope_seen": {"d1_min": env[0], "d1_max": env[1], "abs_d2_max": env[2], "abs_H_max": env[3],
+            "required": "1.7 <= d1 <= 2.3, |d2| <= 0.02, |H| <= 0.5"}}));
 }
 
 // ------------------------------------------------------------------------------------ C02
